@@ -1,4 +1,4 @@
-use crate::math::{float_gt, float_lt, float_ne};
+use crate::math::tight::{float_gt, float_lt, float_ne};
 #[allow(unused_imports)]
 use crate::prelude::*;
 use crate::solvers::SolverError;
